@@ -162,6 +162,32 @@ def monitor_pass(p, prev):
     return None
 
 
+def monitor_clean(c):
+    """one cleanup pass = one clean() call: afterwards BOTH classes are within their limits whenever enough removable
+    blobs existed for them (content judged on the state before the call, network on the state the content pass left)."""
+    pre, post = c['pre'], c['post']
+    cpost = classify(post)
+    if well_formed(pre):
+        cp = classify(pre)
+        used, lim = cp['used'][False], c['cl']
+        if lim != 0 and used > lim and sum(mb(r[1]) for r in cp['removable'][False]) >= used - lim \
+                and cpost['used'][False] > lim:
+            return (f'after clean() content usage is {cpost["used"][False]} MB > limit {lim} MB although enough removable '
+                    f'blobs existed'), 'clean-limit-not-reached'
+    # the state in which the network pass has to run: what the content pass left (it always runs first)
+    content_passes = [p for p in c['passes'] if not p['net']]
+    mid = content_passes[0]['post'] if content_passes else pre
+    if well_formed(mid):
+        cm = classify(mid)
+        used, lim = cm['used'][True], c['nl']
+        if used > lim and sum(mb(r[1]) for r in cm['removable'][True]) >= used - lim and cpost['used'][True] > lim:
+            return (f'after clean() network usage is {cpost["used"][True]} MB > limit {lim} MB although enough removable '
+                    f'network blobs existed (accounted {sum(mb(r[1]) for r in cm["removable"][True])} MB >= excess {used - lim} MB)'
+                    + ('; the network pass did not run' if not any(p['net'] for p in c['passes']) else '')), \
+                'clean-limit-not-reached'
+    return None
+
+
 # ----------------------------------------------------------------------------------------------
 # implementation adapter
 # ----------------------------------------------------------------------------------------------
@@ -351,7 +377,7 @@ async def _run_impl(d, case):
     init_cands = []
     for net in (False, True):
         init_cands += [unhex[h] for h, _ln, _a in await st.get_stored_blobs(is_mine=False, is_network_blob=net)]
-    steps, resolved = [], []
+    steps, resolved, cleans = [], [], []
     for o in case['ops']:
         n0 = len(passes)
         if o[0] == 'repeat':                      # same operation with the same (already resolved) limits
@@ -384,9 +410,10 @@ async def _run_impl(d, case):
                 nl = resolve_limit(nl, u['network_storage'])
             conf.blob_storage_limit = cl
             conf.network_storage_limit = nl
-            r = await dsm.clean()
-            if r is not None:
-                raise RuntimeError('clean() returned %r' % (r,))
+            clean_pre = snapshot(dbpath, bd, unhex, back)
+            clean_ret = await dsm.clean()
+            cleans.append({'op': len(resolved), 'cl': cl, 'nl': nl, 'pre': clean_pre, 'post': snapshot(dbpath, bd, unhex, back),
+                           'passes': passes[n0:], 'ret': clean_ret})
             resolved.append(['clean', cl, nl])
         elif o[0] == 'add':
             h, ln, a, mine, _fin = o[1]
@@ -442,12 +469,14 @@ async def _run_impl(d, case):
         ob['tie'] = any(has_ties(p['cands'], p['net']) for p in passes[n0:])
         if o[0] == 'pass':
             ob['cands'] = passes[-1]['cands']
+        if o[0] == 'clean':
+            ob['clean_ret'] = None if clean_ret is None else repr(clean_ret)
         snap = snapshot(dbpath, bd, unhex, back)
         ob['files_stopped'] = all(x == 'stopped' for x in snap.file_status) if snap.file_status else None
         steps.append(ob)
     box['bm'].stop()
     await st.close()
-    return {'initial': initial, 'steps': steps, 'init_cands': init_cands, 'derived_db': derived}, resolved, passes
+    return {'initial': initial, 'steps': steps, 'init_cands': init_cands, 'derived_db': derived, 'cleans': cleans}, resolved, passes
 
 
 def run_impl(case):
@@ -491,6 +520,8 @@ def canon_step(ob):
         out['deleted'] = [[int(x) for x in dl] for dl in ob['deleted']]
     if 'cands' in ob:
         out['cands'] = [[int(x) for x in r] for r in ob['cands']]
+    if len(ob.get('deleted', [])) == 2:
+        out['clean_ret'] = ob.get('clean_ret')          # clean() returns None; the model side has no value either
     return out
 
 
@@ -665,10 +696,15 @@ def gen_ops(rng, db, nid):
     def a_pass():
         if rng.random() < 0.25:
             ops.append(['status', rng.choice(STATUS_KINDS)])
-        if rng.random() < 0.6:
+        r = rng.random()
+        if r < 0.5:
             ops.append(['pass', rng.random() < 0.45, gen_limit(rng)])
-        else:
+        elif r < 0.75:
             ops.append(['clean', gen_limit(rng), gen_limit(rng)])
+        else:
+            # one clean() with BOTH classes over their limit
+            ops.append(['clean', rng.choice([['below', rng.randrange(1, 1000)], ['below1', 0], ['abs', 1], ['neg', 0]]),
+                        rng.choice([['below', rng.randrange(1000)], ['below1', 0], ['zero', 0], ['neg', 0]])])
     for _ in range(rng.randrange(1, 6)):
         c = rng.random()
         if c < 0.4:
@@ -722,10 +758,14 @@ def gen_real(rng):
     for _ in range(rng.randrange(1, 4)):
         if rng.random() < 0.3:
             ops.append(['status', rng.choice(STATUS_KINDS)])
-        if rng.random() < 0.6:
+        r = rng.random()
+        if r < 0.45:
             ops.append(['pass', rng.random() < 0.4, gen_limit(rng)])
-        else:
+        elif r < 0.7:
             ops.append(['clean', gen_limit(rng), gen_limit(rng)])
+        else:
+            ops.append(['clean', rng.choice([['below', rng.randrange(1, 1000)], ['below1', 0], ['abs', 1]]),
+                        rng.choice([['below', rng.randrange(1000)], ['zero', 0]])])
         if rng.random() < 0.6:
             ops.append(['repeat'])
     if rng.random() < 0.5:
@@ -790,6 +830,13 @@ def check_case(run, model, case, kind):
                        'case': hashlib.sha1(vlib.canon(case).encode()).hexdigest()[:12]}
             bad = (text, sig)
         prev = p
+    for c in impl['cleans']:
+        cp = classify(c['pre'])
+        if cp['used'][False] > c['cl'] != 0 and cp['used'][True] > c['nl']:
+            run.count('clean(): both classes over their limit')
+        m = monitor_clean(c)
+        if m and not bad:
+            bad = (m[0], {'clause': m[1], 'op': c['op'], 'case': hashlib.sha1(vlib.canon(case).encode()).hexdigest()[:12]})
     # the property over the whole history: a blob the user published (its row was created with is_mine=1) is never
     # deleted by a cleanup pass, whatever happened in between (restarts, re-registration, status changes)
     published = {b[0] for b in case['db']['blobs'] if b[3]}
